@@ -63,8 +63,13 @@ pub fn check(ctx: &Ctx) -> i32 {
         let mut k = 0u64;
         for &lead in &leads {
             for nv in 2..=3usize {
-                for na in 2..=3usize {
-                    for asteps in [vec![1024.0 / 48000.0], vec![0.02], vec![0.0], vec![0.0, 1024.0 / 48000.0], vec![0.02, 0.0]] {
+                for na in [2usize, 3, 8, 12] {
+                    for asteps in [vec![1024.0 / 48000.0], vec![1024.0 / 44100.0], vec![0.02], vec![0.0], vec![0.0, 1024.0 / 48000.0], vec![0.02, 0.0]] {
+                        // longer audio runs only with the two real frame spacings (44.1 kHz
+                        // spacing is 2089.79.. ticks: per-step rounding would drift)
+                        if na > 3 && (asteps.len() > 1 || asteps[0] == 0.0 || asteps[0] == 0.02) {
+                            continue;
+                        }
                         // video in decode order at 30 fps; first frame presented cts0 later
                         let mut ops = vec![];
                         let first_pts = it.v0 + it.cts0;
@@ -116,8 +121,8 @@ pub fn check(ctx: &Ctx) -> i32 {
         &tally,
         Meta {
             level: "model_checking",
-            rule: "every A/V history over: first video decode time {0, 1/30, 1, 10 s} x first video composition offset {0, +2 frames} x audio start minus first video presentation {0, 1 tick, 1024/48000, 0.25, 3 s} x 2-3 video frames x 2-3 audio frames x audio step pattern {1024/48000, 0.02, 0, (0, 1024/48000), (0.02, 0)} x {AAC, Opus} x both layouts x codecs; executed on the real muxer; per-track presentation timelines rebuilt from stts/ctts (+ edit list if present, empty edits and media_time honoured) and every audio sample's presentation time relative to the first video frame compared with the submitted difference (tolerance 1 tick). Distinct by output bytes.".into(),
-            bound: "2-3 frames per track".into(),
+            rule: "every A/V history over: first video decode time {0, 1/30, 1, 10 s} x first video composition offset {0, +2 frames} x audio start minus first video presentation {0, 1 tick, 1024/48000, 0.25, 3 s} x 2-3 video frames x 2-3 audio frames x audio step pattern {1024/48000, 1024/44100, 0.02, 0, (0, 1024/48000), (0.02, 0)}, plus runs of 8 and 12 audio frames at the 48 kHz and 44.1 kHz AAC spacings, x {AAC, Opus} x both layouts x codecs; executed on the real muxer; per-track presentation timelines rebuilt from stts/ctts (+ edit list if present, empty edits and media_time honoured) and every audio sample's presentation time relative to the first video frame compared with the submitted difference (tolerance 1 tick). Distinct by output bytes.".into(),
+            bound: "2-3 video frames, 2-3 audio frames (8 and 12 for the two constant spacings)".into(),
             exhaustive: true,
             assumptions: vec!["the known finding C09/no-start-offset is matched only when neither track has an edit list and every audio sample is off by exactly the lost start offset; any other deviation is reported as a violation".into()],
             extra: json!({}),
